@@ -16,6 +16,7 @@ import (
 	vaulttypes "github.com/comdex-official/comdex/x/vault/types"
 
 	"verif/ev"
+	"verif/sim"
 )
 
 // C09, second universe: borrows of the lend module AND vaults of a CDP product
@@ -364,6 +365,10 @@ func c09LendRun(t *testing.T, rec *ev.Rec, run int) {
 	for _, id := range e.u.Order {
 		startPrice[id], _ = e.u.Price(id)
 	}
+	m.idCoincidence()
+	for id, p := range startPrice {
+		e.u.SetPrice(id, p, true)
+	}
 	steps := ev.Pick(700, 4000)
 	for i := 0; i < steps && !e.panicked; i++ {
 		switch x := e.rnd.Intn(100); {
@@ -577,5 +582,96 @@ func c09LendRun(t *testing.T, rec *ev.Rec, run int) {
 	rec.Floor("blocks_with_an_inactive_price", 20)
 	if run == 0 {
 		rec.Sample(map[string]interface{}{"universe": "lend+vault", "variant": variant, "batch": batch, "history_tail": e.tail(8)})
+	}
+}
+
+// idCoincidence: lend ids and borrow ids come from separate counters, so a lend position and somebody else's borrow can
+// carry the same number. On the fresh chain: lend 1 (A, ATOM), lend 2 (B, CMST), borrows 1 and 2 on lend 1 (debts USDC and
+// CMST), borrow 3 pledging the whole of lend 2. CMST then falls: borrow 3 is seized and its lend position, now empty, is
+// closed -- lend position 2 of (pool 1, CMST) goes while borrow 2, which owes CMST out of pool 1, must stay on the list
+// the sweep walks (the membership law of block() decides).
+func (m *c09LendMon) idCoincidence() {
+	e := m.e
+	c := e.c
+	k := c.App.LendKeeper
+	if len(k.GetAllLend(c.Ctx())) > 0 || len(k.GetAllBorrow(c.Ctx())) > 0 {
+		return
+	}
+	A, B := c.Accts[0], c.Accts[1]
+	atom, cmst, usdc := e.u.ByDenom["uatom"], e.u.ByDenom["ucmst"], e.u.ByDenom["uusdc"]
+	pairOf := func(in, out uint64) (lendtypes.Extended_Pair, bool) {
+		for _, id := range e.pairsFor(in, 1) {
+			if p, ok := e.pair(id); ok && p.AssetOut == out && !p.IsInterPool && !p.IsEModeEnabled && p.AssetOutPoolID == 1 {
+				return p, true
+			}
+		}
+		return lendtypes.Extended_Pair{}, false
+	}
+	// X = the asset of lend 2 and the debt of borrow 2; borrow 3 pledges X for any other asset of the pool
+	var pAU, pAC, pCU lendtypes.Extended_Pair
+	found := false
+	for _, x := range []*lendAsset{cmst, usdc} {
+		y := usdc
+		if x == usdc {
+			y = cmst
+		}
+		var ok1, ok2 bool
+		pAU, ok1 = pairOf(atom.ID, y.ID)
+		pAC, ok2 = pairOf(atom.ID, x.ID)
+		for _, id := range e.pairsFor(x.ID, 1) {
+			if p, ok := e.pair(id); ok && ok1 && ok2 && !found && !p.IsInterPool && !p.IsEModeEnabled && p.AssetOutPoolID == 1 && p.AssetOut != x.ID {
+				pCU, found = p, true
+				cmst, usdc = x, e.u.Assets[p.AssetOut]
+			}
+		}
+		if found {
+			break
+		}
+	}
+	if !found {
+		m.rec.Note("id-coincidence scenario: no suitable pairs in pool 1")
+		return
+	}
+	send := func(who *sim.Acct, msg sdk.Msg, what string) bool {
+		res, _ := e.deliver(who, msg)
+		e.log(fmt.Sprintf("id-coincidence: %s -> ok=%v %s", what, res.OK(), c08ShortLog(res.Log)))
+		if !res.OK() {
+			m.rec.Note(fmt.Sprintf("id-coincidence scenario stopped: %s: %s", what, c08ShortLog(res.Log)))
+		}
+		return res.OK()
+	}
+	big1 := func(v int64) *big.Int { return big.NewInt(v) }
+	if !send(A, lendtypes.NewMsgLend(A.Addr.String(), atom.ID, c08coin(atom.Denom, big1(2_000_000_000)), 1, e.u.App), "A lends ATOM (lend 1)") ||
+		!send(B, lendtypes.NewMsgLend(B.Addr.String(), cmst.ID, c08coin(cmst.Denom, big1(700_000_000)), 1, e.u.App), "B lends CMST (lend 2)") {
+		return
+	}
+	in := big1(300_000_000)
+	loan := func(p lendtypes.Extended_Pair, x *big.Int, permille int64) *big.Int {
+		mx := e.maxLoan(p, 1, p.AssetIn, x)
+		mx.Mul(mx, big1(permille)).Quo(mx, big1(1000))
+		if permille < 900 { // the helper borrows: never more than a third of what the pool holds (one transit asset is scarce)
+			if third := new(big.Int).Quo(c08bi(e.poolBal(1, e.u.Assets[p.AssetOut].Denom)), big1(3)); mx.Cmp(third) > 0 {
+				mx = third
+			}
+		}
+		return mx
+	}
+	if !send(A, lendtypes.NewMsgBorrow(A.Addr.String(), 1, pAU.Id, false, c08coin(atom.CDenom, in), c08coin(e.u.Assets[pAU.AssetOut].Denom, loan(pAU, in, 500))), "A borrows on lend 1 (borrow 1)") ||
+		!send(A, lendtypes.NewMsgBorrow(A.Addr.String(), 1, pAC.Id, false, c08coin(atom.CDenom, in), c08coin(cmst.Denom, loan(pAC, in, 500))), "A borrows CMST on lend 1 (borrow 2)") {
+		return
+	}
+	all := big1(700_000_000)
+	if !send(B, lendtypes.NewMsgBorrow(B.Addr.String(), 2, pCU.Id, false, c08coin(cmst.CDenom, all), c08coin(usdc.Denom, loan(pCU, all, 995))), "B borrows USDC pledging the whole of lend 2 (borrow 3)") {
+		return
+	}
+	m.block(6 * time.Second)
+	pc, _ := e.u.Price(cmst.ID)
+	e.u.SetPrice(cmst.ID, pc*70/100, true)
+	e.log(fmt.Sprintf("id-coincidence: price ucmst %d -> %d", pc, pc*70/100))
+	for i := 0; i < 4 && !e.panicked; i++ {
+		m.block(6 * time.Second)
+	}
+	if _, still := k.GetLend(c.Ctx(), 2); !still {
+		m.rec.Count("id_coincidence_lend_position_closed_by_a_seizure_while_a_borrow_carries_its_number", 1)
 	}
 }
